@@ -118,6 +118,12 @@ class Probe(BaseComponent):
     @handler('exception', channel='*', priority=100)
     def _e(self, etype, evalue, tb, handler=None, fevent=None):
         self.log.append(['exception', etype.__name__, getattr(fevent, 'name', None)])
+        Trace.calls.append(['EXC', getattr(fevent, 'c14_index', -1)])
+
+    @handler('read', priority=100)
+    def _rd(self, event, sock, data):
+        # bursts: everything the component consults until the next marker belongs to this read
+        Trace.calls.append(['READ', getattr(event, 'c14_index', -1)])
 
     @handler('ping')
     def _p(self):
@@ -145,11 +151,40 @@ class Trace:
     parser = None       # the parser whose execute() ran last
     req = None          # the Request built by the main path in this operation
     acc = False         # parser accessors were evaluated for a Request(...) call in this operation
+    pcode = None        # head_code of the parser after the execute() of this operation
+    built = []          # every Request the component built in this case (kept alive)
+
+
+def head_code(p, raised):
+    """the parser's decision about the head of the message, as Model/HttpRobustObs.verdict_code numbers it"""
+    if p.is_headers_complete():
+        return 3
+    if p.errno is not None:
+        return 1 + int(p.errno) if int(p.errno) < 2 else 4
+    return 9 if raised else 0
+
+
+def classify_parser(pieces):
+    """a fresh real parser fed piece by piece until it has decided"""
+    p = RealParser(0, True)
+    fed = b''
+    code = 0
+    for d in pieces:
+        fed += d
+        try:
+            p.execute(d, len(d))
+            code = head_code(p, False)
+        except Exception:
+            code = head_code(p, True)
+        if code != 0:
+            break
+    return fed, code
 
 
 class TParser(RealParser):
     def get_method(self):
         Trace.acc = True        # first accessor evaluated for the arguments of either Request(...) call in _on_read
+        Trace.calls.append(['ACC', None])
         return super().get_method()
 
     def execute(self, data, length):
@@ -158,7 +193,9 @@ class TParser(RealParser):
             r = super().execute(data, length)
         except BaseException:
             Trace.calls.append(['exec', None])
+            Trace.pcode = head_code(self, True)
             raise
+        Trace.pcode = head_code(self, False)
         e = self.errno
         Trace.calls.append(['exec', [bool(self.is_headers_complete()), [] if e is None else [int(e)],
                                       bool(self.is_message_complete())]])
@@ -200,11 +237,18 @@ class WrappersShim:
         except BaseException:
             Trace.calls.append([tag, None])
             raise
+        Trace.built.append(r)
+        try:
+            r.c14_tag = tag
+        except Exception:
+            pass
         if tag == 'req':
             p = Trace.parser
             te = r.headers.get('Transfer-Encoding')
             Trace.req = r
-            Trace.calls.append([tag, [list(r.protocol) + [r.method == 'HEAD'], bool(r.headers.get('Host')),
+            hv = r.headers.get('Host', '') or ''
+            Trace.calls.append([tag, [list(r.protocol) + [r.method == 'HEAD', any(c <= ' ' or c == '\x7f' for c in hv)],
+                                      bool(r.headers.get('Host')),
                                       te is not None and te.lower() == 'chunked',
                                       bool(p.should_keep_alive()) if p is not None else False,
                                       te is not None and te != 'chunked' and te.lower() == 'chunked']])
@@ -266,7 +310,7 @@ def decode_responses(data, methods):
         problem = None
         head_end = data.find(b'\r\n\r\n')
         if head_end < 0:
-            return out + [[0, 0, 0, False, 'no end of header section in %r' % data[:60]]]
+            return out + [[0, 0, 0, False, 'no end of header section in %r' % data[:60], False]]
         lines = data[:head_end].split(b'\r\n')
         m = STATUS_LINE.match(lines[0])
         if not m:
@@ -278,16 +322,23 @@ def decode_responses(data, methods):
         try:
             r = http.client.HTTPResponse(_FS(f), method=methods[k] if k < len(methods) else None)
             r.begin()
-            r.read()
+            body = r.read()
         except Exception as e:
             return out + [[int(m.group(3)) if m else 0, int(m.group(1)) if m else 0, int(m.group(2)) if m else 0,
-                           False, problem or 'http.client rejects the response: %s %s' % (type(e).__name__, str(e)[:80])]]
+                           False, problem or 'http.client rejects the response: %s %s' % (type(e).__name__, str(e)[:80]), False]]
         conn = (r.getheader('Connection') or '').lower()
         says_close = ('close' in conn) if r.version == 11 else ('keep-alive' not in conn)
         if r.getheader('Content-Length') is None and (r.getheader('Transfer-Encoding') or '').lower() != 'chunked' \
                 and not says_close and r.status >= 200 and r.status not in (204, 304) and (k >= len(methods) or methods[k] != 'HEAD'):
             problem = problem or 'response is not self-delimiting and does not say close'
-        out.append([r.status, int(m.group(1)) if m else 0, int(m.group(2)) if m else 0, bool(says_close), problem])
+        # the body only has to be "some bytes of the announced length" (nothing is claimed about the error page's HTML)
+        cl = r.getheader('Content-Length')
+        head_only = k < len(methods) and methods[k] == 'HEAD'
+        framed = head_only or (r.getheader('Transfer-Encoding') or '').lower() == 'chunked' or \
+            (cl is not None and cl.isdigit() and int(cl) == len(body))
+        if r.status >= 300 and not head_only and (cl is None or not cl.isdigit() or int(cl) != len(body)):
+            problem = problem or 'error response announces Content-Length %r but carries %d body bytes' % (cl, len(body))
+        out.append([r.status, int(m.group(1)) if m else 0, int(m.group(2)) if m else 0, bool(says_close), problem, bool(framed)])
         rest = f.read()
         data = rest
         k += 1
@@ -298,6 +349,7 @@ def decode_responses(data, methods):
 def run_case(case):
     install()
     FakeSock.calls, FakeSock.gone_after = 0, case.get('gone')
+    Trace.built = []
     old_err = sys.stderr
     sys.stderr = err = io.StringIO()
     try:
@@ -314,13 +366,14 @@ def run_case(case):
         socks = {}
         steps = []
         dispatched = set()
+        seen_bytes, poisoned = {}, {}
         todo = [list(o) for o in case['ops']]
         while todo:
             o = todo.pop(0)
             kind, n = o[0], o[1]
             s = socks.setdefault(n, FakeSock(n))
             n0 = len(probe.log)
-            Trace.calls, Trace.req, Trace.acc = [], None, False
+            Trace.calls, Trace.req, Trace.acc, Trace.pcode = [], None, False, None
             held = getattr(httpc, '_clients', {}).get(s)
             if kind == 'r':
                 m.fire(read(s, o[2].encode('latin-1')), 'web')
@@ -328,6 +381,7 @@ def run_case(case):
                 m.fire(disconnect(s), 'web')
             if not drain(m):
                 stuck = True
+            Trace.calls = [c for c in Trace.calls if c[0] not in ('READ', 'EXC', 'ACC')]     # markers used by the burst driver only
             # the statement `req = wrappers.Request(sock, parser.get_method(), parser.get_scheme(), ...)` can raise while its
             # arguments are evaluated (parser.get_scheme() on a parser that never saw a valid request line): same oracle
             tags = [t for t, _ in Trace.calls]
@@ -364,7 +418,7 @@ def run_case(case):
             slots = [i for i, e in enumerate(effs) if e == ['W']]
             if len(slots) == len(resps):
                 for k, (i, r) in enumerate(zip(slots, resps)):
-                    effs[i] = [2, r[0], r[1], r[2], r[3], k < len(methods) and methods[k] == 'HEAD']
+                    effs[i] = [2, r[0], r[1], r[2], r[3], k < len(methods) and methods[k] == 'HEAD', r[5]]
             else:
                 problems.append('%d runs of writes but %d responses decoded' % (len(slots), len(resps)))
                 for i in slots:
@@ -386,7 +440,22 @@ def run_case(case):
                             break
             bufs = getattr(httpc, '_buffers', {})
             clis = getattr(httpc, '_clients', {})
-            steps.append({'op': [kind, n] + ([o[2]] if kind == 'r' else []) + (['auto'] if kind == 'd' and len(o) > 2 else []),
+            # bytes the connection's parser has been given since it was created (a new parser is created exactly when the
+            # TLS test is consulted); compared with Model classify while short and while no fault is injected
+            head = None
+            if kind == 'r':
+                fresh = any(t == 'ssl' for t, _ in Trace.calls)
+                seen_bytes[n] = (b'' if fresh else seen_bytes.get(n, b'')) + o[2].encode('latin-1')
+                if Trace.pcode is not None and len(seen_bytes[n]) <= 300 and case.get('gone') is None and not poisoned.get(n):
+                    head = [l1(seen_bytes[n]), Trace.pcode]
+                if Trace.pcode in (1, 2, 9):
+                    poisoned[n] = s in bufs      # a parser that survives its own error is outside classify
+                elif fresh:
+                    poisoned[n] = False
+            else:
+                seen_bytes.pop(n, None)
+                poisoned.pop(n, None)
+            steps.append({'head': head,'op': [kind, n] + ([o[2]] if kind == 'r' else []) + (['auto'] if kind == 'd' and len(o) > 2 else []),
                           'tag': o[3] if kind == 'r' and len(o) > 3 else '',
                           'calls': Trace.calls, 'path': pa, 'app': app,
                           'effs': effs[:40], 'n_effs': len(effs), 'state': [s in bufs, s in clis], 'problems': problems,
@@ -413,7 +482,10 @@ def run_case(case):
 
 
 def run_burst(case):
-    """all operations queued before the loop runs: only the oracle looks at these (not modelled)"""
+    """all operations queued before the loop runs; the recorded answers instantiate Model burst (phase1 / phase2)"""
+    install()
+    FakeSock.calls, FakeSock.gone_after = 0, None
+    Trace.calls, Trace.req, Trace.acc, Trace.pcode, Trace.built = [], None, False, None, []
     old_err = sys.stderr
     sys.stderr = err = io.StringIO()
     try:
@@ -428,12 +500,60 @@ def run_burst(case):
         probe = Probe().register(m)
         stuck = not drain(m)
         socks = {}
-        for o in case['ops']:
+        Trace.calls = []
+        for i, o in enumerate(case['ops']):
             s = socks.setdefault(o[1], FakeSock(o[1]))
-            m.fire(read(s, o[2].encode('latin-1')) if o[0] == 'r' else disconnect(s), 'web')
+            e = read(s, o[2].encode('latin-1')) if o[0] == 'r' else disconnect(s)
+            e.c14_index = i
+            m.fire(e, 'web')
         if not drain(m):
             stuck = True
+        # per read: the call sites consulted by its handler and by the exception handler that served it
+        per_read, cur = {}, None
+        for c in Trace.calls:
+            if c[0] in ('READ', 'EXC'):
+                cur = c[1]
+            elif cur is not None and cur >= 0:
+                per_read.setdefault(cur, []).append(c)
+        reads = []
+        last_req = {}
+        built = list(Trace.built)
+        for i, o in enumerate(case['ops']):
+            if o[0] != 'r':
+                last_req.pop(o[1], None)      # a disconnect drops the pair
+                continue
+            calls = per_read.get(i, [])
+            tg = [t for t, _ in calls if t != 'ACC']
+            if any(t == 'ACC' for t, _ in calls) and 'excreq' in tg and tg.index('excreq') > 0 and tg[tg.index('excreq') - 1] == 'exec':
+                calls = [c for c in calls if c[0] != 'ACC']
+                ex = calls[tg.index('exec')][1]
+                if ex is not None:        # the Request(...) statement raised while its arguments were evaluated (see run_case)
+                    calls.insert(tg.index('excreq'), ['req' if ex[0] else 'errreq', None])
+            calls = [c for c in calls if c[0] != 'ACC']
+            reads.append({'i': i, 'sock': o[1], 'calls': calls, 'path': None})
+        # the Request each read built on the main path, in order of construction
+        main_reqs = [r for r in built if getattr(r, 'c14_tag', None) == 'req']
+        k = 0
+        for rd in reads:
+            if any(t == 'req' and a is not None for t, a in rd['calls']):
+                if k < len(main_reqs):
+                    last_req[rd['sock']] = main_reqs[k]
+                k += 1
+            rq = last_req.get(rd['sock'])
+            rd['path'] = path_answer(rq) if rq is not None else None
         written, methods, closes, excs = {}, {}, {}, []
+        keys = {}
+        prev = None
+        seen_req = set()
+        for rec in probe.log:
+            if rec[0] == 'request':
+                seen_req.add(rec[1])
+                keys.setdefault(rec[3], []).append(4000000)
+            elif rec[0] == 'httperror' and rec[1] not in seen_req:
+                keys.setdefault(rec[4], []).append(1000000 + rec[2])
+            elif rec[0] == 'close':
+                keys.setdefault(rec[1], []).append(3000000)
+        app_statuses = set()
         for rec in probe.log:
             if rec[0] == 'response':
                 methods.setdefault(rec[2], []).append(rec[1])
@@ -449,6 +569,12 @@ def run_burst(case):
             rs = decode_responses(data, methods.get(n, []))
             nresp[str(n)] = [r[:4] for r in rs]
             problems += ['connection %d: %s' % (n, r[4]) for r in rs if r[4]]
+            for k2, r in enumerate(rs):
+                ver = 0 if (r[1], r[2]) == (1, 0) else (1 if (r[1], r[2]) == (1, 1) else 2)
+                hd = k2 < len(methods.get(n, [])) and methods[n][k2] == 'HEAD'
+                keys.setdefault(n, []).append(2000000 + ((r[0] * 10 + ver) * 8 + (4 if r[3] else 0) + (2 if hd else 0) + (1 if r[5] else 0)))
+                if r[0] < 300:
+                    app_statuses.add(r[0])
         n0 = len(probe.log)
         pong = False
         if not stuck:
@@ -458,9 +584,13 @@ def run_burst(case):
         gone = [o[1] for o in case['ops'] if o[0] == 'd']
         retained = sorted(n for n, s in socks.items() if n in gone and
                           (s in getattr(httpc, '_buffers', {}) or s in getattr(httpc, '_clients', {})))
+        state = {str(n): [s in getattr(httpc, '_buffers', {}), s in getattr(httpc, '_clients', {})] for n, s in socks.items()}
     finally:
         sys.stderr = old_err
-    return {'burst': True, 'responses': nresp, 'problems': problems, 'exceptions': excs, 'pong': pong, 'stuck': stuck,
+        uninstall()
+    return {'burst': True, 'reads': [{'i': r['i'], 'sock': r['sock'], 'calls': r['calls'], 'path': r['path']} for r in reads],
+            'keys': {str(n): sorted(v) for n, v in keys.items()}, 'state': state, 'app_statuses': sorted(app_statuses),
+            'responses': nresp, 'problems': problems, 'exceptions': excs, 'pong': pong, 'stuck': stuck,
             'stderr': err.getvalue()[-400:], 'retained_for': retained,
             'requests': len([r for r in probe.log if r[0] == 'request'])}
 
@@ -497,7 +627,7 @@ def bases(rng):
 TLS_HELLO = bytes([0x16, 0x03, 0x01, 0x00, 0x2f, 0x01, 0x00, 0x00, 0x2b, 0x03, 0x03]) + bytes(range(32)) + b'\x00\x00\x02\x13\x01\x01\x00'
 SSL2_HELLO = bytes([0x80, 0x2e, 0x01, 0x00, 0x02, 0x00, 0x15, 0x00, 0x00, 0x00, 0x10]) + bytes(range(35))
 
-MUTATIONS = ['hdr-nonlatin1', 'hdr-nonlatin1', 'line-parts', 'line-version', 'line-major', 'line-fragment', 'hdr-nocolon', 'hdr-name', 'hdr-oversized',
+MUTATIONS = ['hdr-nonlatin1', 'hdr-nonlatin1', 'host-ctl', 'line-parts', 'line-version', 'line-major', 'line-fragment', 'hdr-nocolon', 'hdr-name', 'hdr-oversized',
              'cl-alpha', 'cl-negative', 'cl-conflict', 'chunk-size', 'escape', 'escape-hdr', 'nul', 'tls', 'ssl2',
              'no-host', 'host-port', 'byteflip', 'insert', 'empty-read', 'dotdot', 'url-bracket']
 
@@ -519,6 +649,11 @@ def mutate(rng, kind):
 
 def mutate_get(rng, kind):
     host = [('Host', 'localhost:8000')]
+    if kind == 'host-ctl':
+        # control characters / spaces in the Host header (raw or as escapes the parser decodes), with canonical and
+        # non-canonical paths (the latter used to reflect them into Location)
+        h = rng.choice(['a\x00b', 'a\\x00b', 'a b', 'a\tb:80', 'a\\x0d\\x0aX-Injected: 1', 'a\x7f', 'a\\x1fb', 'a\x0bb', 'exa\x01mple.org:81'])
+        return req_bytes(target=rng.choice(['/', '/../x', '//x', '/a/../b']), headers=[('Host', h)]), 'malformed'
     if kind == 'hdr-nonlatin1':
         # header values outside ASCII / latin-1: raw UTF-8 or high bytes, or the backslash escapes that the parser's
         # unicode_escape decoding turns into code points > 255; in a Cookie they come back as Set-Cookie
@@ -589,6 +724,51 @@ def mutate_get(rng, kind):
     raise ValueError(kind)
 
 
+def in_domain(head):
+    """python twin of the model's [Unmodelled] test, for the statistics only (K uses the model's own answer)"""
+    i = head.find(b'\r\n')
+    line = head if i < 0 else head[:i]
+    if b'\\' in line or any(c >= 128 for c in line):
+        return False
+    parts = line.decode('latin-1').split(None, 2)
+    if len(parts) == 3 and ('[' in parts[1] or ']' in parts[1]):
+        return False
+    j = head.find(b'\r\n\r\n', i + 2) if i >= 0 else -1
+    blk = head[i + 2:j] if j >= 0 else b''
+    return b'\\' not in blk
+
+
+HEAD_MALFORMED = ('line-parts', 'line-version', 'hdr-nocolon', 'hdr-name')
+SEPS = [' ', ' ', ' ', '  ', '\t', '\x0b', '\x1c', '\x1f', '\n', '', '\r']
+VERSIONS = ['HTTP/1.1', 'HTTP/1.0', 'HTTP/123', 'HTTP/12', 'HTTP/1x1', 'HTTP/1.1\n', 'HTTP/1.1\n\n', 'HTTP/1\n1', 'HTTP/1\r1', 'HTTP/1.1 ',
+            'HTTP/1.1 x', 'HTTP/.1', 'HTTP/1.', 'HTTP/11.10', 'http/1.1', 'HTTP/1.1\t', 'HTTP/1..1', 'HTTP/1.1.1', 'HTTP/', 'HTTP/1:1#']
+METHS = ['HEAD', 'G@T', 'get', 'Get', 'post', 'hEAD', 'A' * 20, 'A' * 21, '^', '`', 'GE_T', 'G$T', 'G#T', 'G"T', 'G!T', 'PO.ST', 'a', 'z', '{', '0', '__', '~', 'G\x7fT']
+TARGETS = ['/', '/#', '/#x', '#', '#\x01', '\x00#a', '/a?b#', '/a?b#c', 'a:b#c', '*', '/\x01', '/x#y#z', '//h/p', 'http://h/p', '/[', '/a]']
+HLINES = ['Host: a', 'A: b', 'A:b', ':v', 'A', '', 'A b: c', 'A : c', 'A\t: c', ' A: c', '\tfolded', ' folded: x', 'A(: c', 'A/B: c', 'A=B: c',
+          'A{}: c', 'A"B: c', 'A\x00: c', 'A\x7f: c', 'A\x1f: c', 'A-B_c.d!#$%&\'*+^`|~: c', 'X: y: z', 'A\x80: c', 'A: \x00', 'A: \\x',
+          'A\\: c', 'Content-Length: abc', 'A;: c', 'A,: c', 'A<>: c', 'A@: c', 'A[]: c']
+
+
+def head_case(rng):
+    """the head of a request assembled from corner cases of the grammar the parser enforces -> bytes"""
+    r = rng.random()
+    if r < 0.45:
+        # mostly valid: each component of the request line is replaced by a corner case with probability 0.3
+        def pick(valid, pool):
+            return rng.choice(pool) if rng.random() < 0.3 else valid
+        line = pick('', SEPS[-2:] + [' ']) + pick('GET', METHS) + pick(' ', SEPS) + pick('/', TARGETS) + pick(' ', SEPS) \
+            + pick('HTTP/1.1', VERSIONS)
+        hl = [rng.choice(HLINES[:2]) for _ in range(rng.randint(0, 2))]
+    elif r < 0.9:
+        line = rng.choice(['GET / HTTP/1.1', 'HEAD /x HTTP/1.0'])
+        hl = [rng.choice(HLINES) if rng.random() < 0.4 else rng.choice(HLINES[:3]) for _ in range(rng.randint(1, 4))]
+    else:
+        line = rng.choice(['GET / HTTP/1.1', 'GARBAGE', 'GET /', '', ' '])
+        hl = []
+    end = rng.choice(['\r\n\r\n', '\r\n\r\n', '\r\n\r\n', '\r\n', '\r\n\r', '\n\n', '', '\r\n\r\nbody'])
+    return (line + '\r\n' + '\r\n'.join(hl) + end).encode('latin-1') if hl else (line + end).encode('latin-1')
+
+
 def cut(rng, data, maxcuts=2):
     if len(data) < 2 or rng.random() < 0.5:
         return [data]
@@ -637,6 +817,21 @@ class C14(Prop):
     # ---- cases
     def generate(self, rng, n, tier):
         cases = []
+        # the parser's decision about the head (second layer of the model): grammar corner cases and the mutation classes
+        for i in range(n // 3):
+            if rng.random() < 0.55:
+                data, kind, exp = head_case(rng), 'head-grammar', 'any'
+            else:
+                kind = rng.choice(MUTATIONS)
+                data, _ = mutate(rng, kind)
+                exp = 'malformed-head' if kind in HEAD_MALFORMED else 'any'
+                if len(data) > 400:
+                    data = data[:400]
+                    exp = 'any'
+            r = rng.random()
+            pieces = [data] if r < 0.5 else (cut(rng, data, 3) if r < 0.8 else [data[:rng.randint(0, len(data))]])
+            cases.append({'k': 'p', 'cls': kind, 'expect': exp if len(pieces) == 1 or r < 0.8 else 'any', 'pieces': [l1(p) for p in pieces]})
+        n = len(cases) + n
         # truncation at every offset of base requests, then disconnect
         bs = bases(rng)
         for data, kind in ([bs[0], bs[3]] if tier == 'quick' else bs + bases(rng)):
@@ -690,9 +885,20 @@ class C14(Prop):
 
     # ---- implementation
     def impl(self, case):
+        if case.get('k') == 'p':
+            fed, code = classify_parser([p.encode('latin-1') for p in case['pieces']])
+            obs = {'fed': l1(fed), 'code': code, 'definite': in_domain(fed)}
+            self._rec[common.canon(case)] = obs
+            st = self.stats.setdefault('parser_verdicts', {})
+            key = '%s%s' % ({0: 'need-more', 1: 'bad-first-line', 2: 'invalid-header', 3: 'headers-ok', 9: 'raises'}.get(code, str(code)),
+                            '' if obs['definite'] else ' (outside the concrete layer)')
+            st[key] = st.get(key, 0) + 1
+            return obs
         if case.get('burst'):
             self.stats['burst_cases'] = self.stats.get('burst_cases', 0) + 1
-            return run_burst(case)
+            obs = run_burst(case)
+            self._rec[common.canon(case)] = obs
+            return obs
         obs = run_case(case)
         self._rec[common.canon(case)] = obs
         st = self.stats
@@ -743,7 +949,7 @@ class C14(Prop):
         ssl = R('ssl', b)
         ex = R('exec', lambda v: '(mkF %s %s %s)' % (b(v[0]), 'None' if not v[1] else '(Some %s)' % ['BadFirstLine', 'InvalidHeader', 'InvalidChunk'][v[1][0]], b(v[2])))
         er = R('errreq', lambda v: '((%s, %s), %s)' % (N(v[0]), N(v[1]), b(v[2])))
-        rq = R('req', lambda v: '(mkR %s %s %s %s %s %s)' % (N(v[0][0]), N(v[0][1]), b(v[0][2]), b(v[1]), b(v[2]), b(v[3])))
+        rq = R('req', lambda v: '(mkR %s %s %s %s %s %s %s)' % (N(v[0][0]), N(v[0][1]), b(v[0][2]), b(v[1]), b(v[0][3]), b(v[2]), b(v[3])))
         cl = R('int', lambda v: '(%d)%%Z' % v)
         # the path guard is not a traceable call site: its answer is the guard replayed on the built request; an exception of the
         # read handler after int() was consulted and before anything was fired is attributed to it
@@ -757,8 +963,36 @@ class C14(Prop):
         return '(mkA %s %s %s %s %s %s %s %s)' % (ssl, ex, er, rq, cl, pa, xr, ap)
 
     def model_term(self, case):
+        if case.get('k') == 'p':
+            obs = self._rec.get(common.canon(case)) or self.safe_impl(case)
+            if not isinstance(obs, dict) or '__crash__' in obs:
+                return None
+            return 'obs_classify %s (%d)' % (common.nlist(obs['fed']), obs['code'])
         if case.get('burst'):
-            return None
+            obs = self._rec.get(common.canon(case)) or self.safe_impl(case)
+            if not isinstance(obs, dict) or '__crash__' in obs or obs['stuck'] or not set(obs['app_statuses']) <= {200} \
+                    or any(e[1] == 'request' for e in obs['exceptions']):
+                return None
+            for r in obs['reads']:
+                for t, a in r['calls']:
+                    if t == 'req' and a is not None and a[4]:
+                        return None
+            for n, ks in obs['keys'].items():
+                # the application's answers are an oracle fixed to 200 here; a dispatch that re-uses the pair of an earlier,
+                # already rejected message (reads handled before the first cascade ran) is answered with that pair's status
+                if len([x for x in ks if x == 4000000]) != len([x for x in ks if 2000000 <= x < 3000000 and (x - 2000000) // 80 == 200]):
+                    return None
+            ops, k = [], 0
+            for o in case['ops']:
+                if o[0] == 'r':
+                    rd = obs['reads'][k]
+                    k += 1
+                    ops.append('Read %d%%nat %s' % (o[1], self.answers_term({'calls': rd['calls'], 'path': rd['path'], 'app': 200})))
+                else:
+                    ops.append('Disc %d%%nat' % o[1])
+            socks = sorted(int(n) for n in obs['state'])
+            return 'obs_burst %s [%s] [%s]' % ('true' if case.get('secure') else 'false', '; '.join(ops),
+                                                '; '.join('%d%%nat' % n for n in socks))
         obs = self._rec.get(common.canon(case))
         if obs is None:
             obs = self.safe_impl(case)
@@ -770,11 +1004,21 @@ class C14(Prop):
                 ops.append('Read %d%%nat %s' % (s['op'][1], self.answers_term(s)))
             else:
                 ops.append('Disc %d%%nat' % s['op'][1])
-        return 'obs_run %s [%s]' % ('true' if case.get('secure') else 'false', '; '.join(ops))
+        heads = ['obs_classify %s (%d)' % (common.nlist(s['head'][0]), s['head'][1]) for s in obs['steps'] if s.get('head')]
+        return 'Tl [obs_run %s [%s]; Tl [%s]]' % ('true' if case.get('secure') else 'false', '; '.join(ops), '; '.join(heads))
 
     def obs_for_model(self, case, obs):
         if isinstance(obs, dict) and '__crash__' in obs:
             return [-999]
+        if case.get('k') == 'p':
+            return [obs['code']]
+        if case.get('burst'):
+            socks = sorted(int(n) for n in obs['state'])
+            return [[[TAG[t] for t, _ in r['calls']] for r in obs['reads']],
+                    [obs['keys'].get(str(n), []) for n in socks], [obs['state'][str(n)] for n in socks]]
+        return [self.obs_ops(obs), [[s['head'][1]] for s in obs['steps'] if s.get('head')]]
+
+    def obs_ops(self, obs):
         out = []
         for s in obs['steps']:
             effs = []
@@ -788,6 +1032,11 @@ class C14(Prop):
     # ---- oracle: the property statement read off the real run (knows nothing of the model)
     def oracle(self, case, obs):
         if isinstance(obs, dict) and '__crash__' in obs:
+            return None
+        if case.get('k') == 'p':
+            # independent reading: a head that is definitely malformed must not be accepted by the parser
+            if case.get('expect') == 'malformed-head' and obs['code'] == 3 and obs['fed'] == ''.join(case['pieces']):
+                return 'accepted-malformed: the parser accepts a malformed head (%s)' % case.get('cls')
             return None
         if obs['stuck']:
             last = obs['steps'][-1] if obs.get('steps') else None
@@ -879,13 +1128,11 @@ class C14(Prop):
         return None
 
     def finding_class(self, case, obs, what):
-        # C14-nul-in-location: a NUL byte of the Host header is reflected into the Location header of the 301 that answers a
-        # non-canonical path; nothing else is covered
-        if 'is not field-name: value' in what and "header line b'Location: " in what and '\\x00' in what:
-            return 'C14-nul-in-location'
-        return None
+        return None             # no open findings (C14-nul-in-location was retired by fixes/C14_host_control_chars.patch)
 
     def nontrivial(self, case, obs):
+        if case.get('k') == 'p':
+            return isinstance(obs, dict) and obs.get('code') in (1, 2, 3) and obs.get('definite')
         if isinstance(obs, dict) and obs.get('burst'):
             return bool(obs['responses'])
         if not isinstance(obs, dict) or 'steps' not in obs:
